@@ -785,7 +785,7 @@ func c28gen(r *rand.Rand, tier string, emit func(string)) {
 	}
 	// (2) depth 2: quick = all pairs over a seeded sample, thorough = all pairs
 	u2 := d2
-	n2 := 260
+	n2 := 160
 	if tier == "thorough" {
 		n2 = 1500
 	}
@@ -828,7 +828,7 @@ func c28gen(r *rand.Rand, tier string, emit func(string)) {
 		byHash[h] = append(byHash[h], s)
 	}
 	ntr := 0
-	maxtr := 15000
+	maxtr := 8000
 	if tier == "thorough" {
 		maxtr = 200000
 	}
@@ -855,7 +855,7 @@ func c28gen(r *rand.Rand, tier string, emit func(string)) {
 			ifs = append(ifs, s)
 		}
 	}
-	nif := 20000
+	nif := 10000
 	if tier == "thorough" {
 		nif = 400000
 	}
@@ -927,7 +927,7 @@ func c28gen(r *rand.Rand, tier string, emit func(string)) {
 func init() {
 	register(&Prop{
 		ID: "C28",
-		Rule: "bounded-exhaustive: every ordered pair (both orders in one op) of the depth-1 universe (6 leaves incl. byte/uint8 alias and 2 named; arrays, slices, pointers, chans, maps, structs over 14 field shapes, signatures with receivers/variadic, tuples, interfaces = 18 explicit method sets x 12 sets of embedded named interfaces) and of a depth-2 universe (10 constructors over depth 1; quick: seeded sample of 260, thorough: 1500); transitivity triples inside hash classes and random triples of interfaces; random Set/At/Delete/Len/Iterate histories on typeutil.Map against a linear-scan association list. Non-trivial: every id op, triples with x~y and y~z, map ops on non-empty maps.",
+		Rule: "bounded-exhaustive: every ordered pair (both orders in one op) of the depth-1 universe (6 leaves incl. byte/uint8 alias and 2 named; arrays, slices, pointers, chans, maps, structs over 14 field shapes, signatures with receivers/variadic, tuples, interfaces = 18 explicit method sets x 12 sets of embedded named interfaces) and of a depth-2 universe (10 constructors over depth 1; quick: seeded sample of 160, thorough: 1500); transitivity triples inside hash classes and random triples of interfaces; random Set/At/Delete/Len/Iterate histories on typeutil.Map against a linear-scan association list. Non-trivial: every id op, triples with x~y and y~z, map ops on non-empty maps.",
 		Gen:        c28gen,
 		Exec:       c28exec,
 		Exhaustive: func(tier string) bool { return true },
